@@ -707,6 +707,7 @@ def truth_search(g, starts, targets, stop_edge=None, env0=None, limit=200000, ex
     tset = {t.id if hasattr(t, 'id') else t for t in targets}
     seen = {}
     work = deque()
+    live = _live_names(g)
     for s in starts:
         sid = s.id if hasattr(s, 'id') else s
         key = (sid, frozenset((env0 or {}).items()), extra0)
@@ -742,11 +743,73 @@ def truth_search(g, starts, targets, stop_edge=None, env0=None, limit=200000, ex
                 if node.kind == 'test' and lab in (True, False):
                     nenv = _refine(node.ast, lab, nenv)
             nextra = step(extra, node, lab, env, g.nodes[b]) if step is not None else extra
+            # what is known about a name that is never read again cannot influence any later decision: forget it
+            lb = live.get(b)
+            if lb is not None:
+                nenv = {k_: v_ for k_, v_ in nenv.items() if not isinstance(k_, str) or '.' in k_ or k_.startswith('*') or k_ in lb}
             k2 = (b, frozenset(nenv.items()), nextra)
             if k2 not in seen:
                 seen[k2] = key
                 work.append(k2)
     return hits, seen
+
+
+def _live_names(g):
+    """node id -> names that may be read on some path from the node before being re-bound (backward may-liveness);
+    None for a graph whose nodes cannot be read reliably"""
+    cache = getattr(g, '_live_cache', None)
+    if cache is not None:
+        return cache
+    use, dfn = {}, {}
+    for n in g.nodes:
+        a = n.ast
+        u, d = set(), set()
+        if a is not None:
+            if n.kind == 'for' and isinstance(a, ast.For):
+                u = {x.id for x in ast.walk(a.iter) if isinstance(x, ast.Name)}
+                d = {x.id for x in ast.walk(a.target) if isinstance(x, ast.Name)}
+                u |= {x.id for x in ast.walk(a.target) if isinstance(x, ast.Name) and isinstance(x.ctx, ast.Load)}
+            else:
+                for x in ast.walk(a):
+                    if isinstance(x, ast.Name):
+                        if isinstance(x.ctx, ast.Load):
+                            u.add(x.id)
+                        else:
+                            d.add(x.id)
+                # x.append(..) / x[k] = .. read x; an augmented assignment reads its target
+                if isinstance(a, ast.AugAssign):
+                    u |= {x.id for x in ast.walk(a.target) if isinstance(x, ast.Name)}
+                    d = set()
+                if n.kind not in ('stmt',):
+                    d = set()           # only plain statements kill
+                elif not isinstance(a, (ast.Assign, ast.AnnAssign)):
+                    d = set()
+                else:
+                    # a name stored inside a subscript / attribute target is read, not bound
+                    plain = set()
+                    for t in (a.targets if isinstance(a, ast.Assign) else [a.target]):
+                        for x in ast.walk(t):
+                            if isinstance(x, ast.Name) and isinstance(x.ctx, ast.Store):
+                                plain.add(x.id)
+                    d = plain - u
+        use[n.id], dfn[n.id] = u, d
+    live_in = {n.id: set(use[n.id]) for n in g.nodes}
+    changed = True
+    while changed:
+        changed = False
+        for n in reversed(g.nodes):
+            out = set()
+            for b, _ in g.succ[n.id]:
+                out |= live_in[b]
+            new = use[n.id] | (out - dfn[n.id])
+            if new != live_in[n.id]:
+                live_in[n.id] = new
+                changed = True
+    try:
+        g._live_cache = live_in
+    except Exception:
+        pass
+    return live_in
 
 
 def _refine(test, label, env):
